@@ -19,7 +19,7 @@ def run(rep, tier):
     lib.proof_gate(rep, PROP, THEOREMS, IMPORTS)
     n = 400 if tier == "quick" else 160000
     n = rep.scale(n)
-    agg = runner.correspondence(rep, prop=PROP, mod_name="harness.mm", driver_kind="mmap", ncases=n,
+    agg = runner.correspondence(rep, prop=PROP, mod_name="harness.mm", legal_only=True, driver_kind="mmap", ncases=n,
                                 extra=("alloc",), nontrivial=nontrivial, oracle_props={"C02"},
                                 sample_fmt=sample)
     rep.coverage.update(agg)
@@ -27,7 +27,7 @@ def run(rep, tier):
     # EVERY operation sequence of length k over a small alphabet on an 8-word map
     from .. import mm
     k = 2 if tier == "quick" else 3
-    ex = runner.correspondence(rep, prop=PROP, mod_name="harness.mm", driver_kind="mmap", ncases=mm.exh_count(k),
+    ex = runner.correspondence(rep, prop=PROP, mod_name="harness.mm", legal_only=True, driver_kind="mmap", ncases=mm.exh_count(k),
                                extra=("exh", k), oracle_props={"C02"})
     rep.coverage["bounded_exhaustive"] = {"sequence_length": k, "alphabet": len(mm.exh_alphabet(k)), "cases": ex["evaluations"],
                                           "correspondence_diffs": ex["correspondence_diffs"], "oracle_failures": ex["oracle_failures"],
